@@ -197,6 +197,18 @@ def run(prog, ctx):
         else:
             res.violate("C09.N", "C09.N|reset", "reset does not clear both the bit array and the bit count", rs.id)
     res.rule("C09.N", n_n, 5, "count-maintenance sites")
+    # ---------------- C09.H the XXH64 implementation the positions are derived from (rules shared with C16)
+    from . import C16
+    r16 = C16.run(prog, ctx)
+    n_h = 0
+    for rid, info in r16.rules.items():
+        n_h += info["instances"]
+    for v in r16.violations:
+        if "XxHash64" in v.key or "xx-" in v.key or "hashers" in v.key:
+            res.violate("C09.H", "C09.H|" + v.key, "XXH64 (source of the bit positions): " + v.message, v.fn, v.span)
+    res.obligations += r16.obligations
+    res.discharged += r16.discharged
+    res.rule("C09.H", n_h, 10, "hash-implementation obligations shared with C16 (XXH64 subset reported here)")
     res.explanation = ("formula and structural rules over the %d functions reachable from the BloomFilter mutators and contains(): index formula on a "
                        "grid, double hashing seeds, sibling agreement of check/set, word/bit split, count maintenance" % len(reach))
     res.not_decided = "measured false-positive rate"
